@@ -172,6 +172,9 @@ func (st *store) exec(line string) (out string) {
 	if len(ws) == 0 {
 		return "bad-op"
 	}
+	if ws[0] == "bigstream" {
+		return runBigStream(line)
+	}
 	iter := func(n string) *simdjson.Iter {
 		i, ok := st.iters[n]
 		if !ok {
